@@ -27,7 +27,7 @@ class Prop(common.PropertyCheck):
             yield {'res': rng.choice([256, 1024, 1000, 4096, 65536, 262144, 777]), 'units': rng.choice(['raw', 'rfi', 'mef']),
                    'scale': rng.choice(['linear', 'log', 'logicle']), 'n': rng.choice([None, 1, 2, 17, 256, 'res']),
                    'chform': rng.choice(['name', 'pos', 'list', 'all', 'list_mixed']), 'over': rng.choice([None, None, 'T', 'M', 'W', 'W0', 'Wbig', 'Tsmall', 'TM']),
-                   'dt': rng.choice(['I', 'I', 'F']), 'tinyneg': rng.random() < 0.4, 'seed': rng.randrange(1 << 30)}
+                   'dt': rng.choice(['I', 'I', 'F']), 'tinyneg': rng.random() < 0.4, 'nan': rng.random() < 0.3, 'seed': rng.randrange(1 << 30)}
         yield {'res': 1024, 'units': 'raw', 'scale': 'cubic', 'n': None, 'chform': 'name', 'over': None, 'seed': 1}
         # unsupported entries inside a per-channel scale list
         for badsc in (['linear', 'Log'], ['loglog', 'linear'], ['logicle', None], ['cubic', 'cubic'], ['linear', '']):
@@ -42,13 +42,20 @@ class Prop(common.PropertyCheck):
         spec['widths'] = [32, 32, 32]
         spec['pne'] = {'1': '0,0', '2': r.choice(['4,1', '4,0', '3,1', '4.5,1', '6,0.01', '7,0.001', '5,0.3']), '3': '4,1'}
         d, _ = samples.load(spec, name='c19.fcs')
+        if case.get('nan') and case.get('dt') == 'F':
+            # one event without a value next to negative events
+            d = d.copy()
+            d[3, 1] = np.nan
+            d[4, 0] = np.nan
         if case.get('tinyneg') and case.get('dt') == 'F':
             # negative events only slightly below zero (well inside the linear region the default W would give)
             d = FlowCal.transform.transform(d, None, lambda x: np.where(np.asarray(x) < 0, np.asarray(x) * 1e-5, np.asarray(x)))
         if case['units'] in ('rfi', 'mef'):
             d = FlowCal.transform.to_rfi(d)
         if case['units'] == 'mef':
-            d = FlowCal.transform.to_mef(d, [1], [(lambda x: np.sign(x) * math.exp(2.0) * np.abs(x) ** 1.05) if case['seed'] % 3 else (lambda x: 0.5 * np.sign(x) * np.abs(x) ** 1.5)], [1])
+            d = FlowCal.transform.to_mef(d, [1], [(lambda x: np.sign(x) * math.exp(2.0) * np.abs(x) ** 1.05) if case['seed'] % 3 == 1 else
+                                              (lambda x: 0.5 * np.sign(x) * np.abs(x) ** 1.5) if (case['seed'] % 3 == 2 or case['scale'] not in ('log', 'linear')) else
+                                              (lambda x: math.exp(2.0) * np.abs(x) ** 1.05 * np.sign(x) - 35.0)], [1])
         return d
 
     def run_impl(self, case):
